@@ -6,19 +6,28 @@ PROPS["C11"] = dict(
                              "op.add", "op.add.direct", "op.write", "op.write.empty", "op.commit", "op.abort", "op.closew",
                              "op.pwrite", "op.prename", "op.pdone", "op.get", "op.read", "op.closer", "op.peek",
                              "pick.fresh", "pick.reuse", "result.get.hit.buf", "result.get.hit.file", "result.get.miss",
-                             "result.hit.zero-length", "result.duplicate-commit"])],
+                             "result.hit.zero-length", "result.duplicate-commit",
+                             "cfg.block", "op.closecache", "op.pfail", "result.pfail.failed", "op.gstart", "op.gfd", "op.gopen",
+                             "result.gstart.pending", "result.gfd.pending", "result.gopen.hit.file", "result.gopen.miss",
+                             "result.commit.fail", "result.add.closed"])],
     rule="schedules of Add/Write/Commit/Abort/Close, Get/ReadAt/Close and the three persist sub-steps (gated by a hook, so that "
          "background and synchronous persistence interleave with other callers) over 6 keys on NewDirectoryCache with "
          "MaxLRUCacheEntry 1..3, MaxCacheFds 1..3, all of SyncAdd/Direct/FadvDontNeed, per-call Direct()/PassThrough(), and on "
          "NewMemoryCache: 2/3 random op sequences (10-60 ops), 1/3 eviction-pressure scenarios (publish, hold readers / a pending "
          "persist step, evict by other keys, let recycled buffers be overwritten by new writers, then read), a hand-written corpus, "
          "plus 6 concurrent stress runs (8 goroutines, oracle only); self-describing values (key, writer, pattern), zero-length "
-         "values, duplicate adds; non-trivial = at least one hit and two writers; distinct = distinct (config, executed sub-steps, outputs)",
+         "values, duplicate adds; faults and teardown driven on the implementation: short writes of the persist step (RLIMIT_FSIZE, "
+         "model op PFail), MkdirAll failure of one key's directory (a regular file in its place), cache.Close() in mid-schedule, and "
+         "Gets whose three lookups are separate schedule steps (hook VerifGetHook: GetMem/GetFd/GetOpen); non-trivial = at least one hit and two writers; distinct = distinct (config, executed sub-steps, outputs)",
     assumptions=[
         "each cacheutil.LRUCache method (with the OnEvicted callbacks it runs) is atomic under the cache mutex; open/rename/unlink/write on a "
         "private wip file are atomic syscalls, rename replaces atomically and an open descriptor keeps reading the old inode (POSIX)",
         "clients follow the documented cache.Writer / cache.Reader protocol: Write* ; (Commit | Abort) ; Close, no use of a reader after its Close "
         "(other ops are no-ops in the model and are never sent to the implementation)",
+        "keys have at least 2 characters: cachePath slices key[:2] and would panic otherwise; every caller (fs/reader genID, fs/remote "
+        "blob genID) passes a hex SHA-256, never a string chosen by a registry or an image, so short keys are outside the property",
+        "cache.Close(): the isClosed check and the following rename of one Commit are taken as one step (a Close falling between them "
+        "can leave a file in a removed directory, which no Get can reach any more)",
         "sync.Pool hands out either a new buffer or one that was Put and not yet handed out again (which one is an input of the model, observed by the harness)",
         "the content a dangling slice of a Reset bytes.Buffer would show is modelled as the buffer's current content (the theorems show no reader is ever in that situation)",
     ],
@@ -32,5 +41,7 @@ PROPS["C11"] = dict(
               "correspondence by vm_compute on observed schedules; model-free oracle on self-describing values incl. concurrent stress",
     trusted=["cache/cache.go is modelled by hand in coq/Model/Cache.v; tie = per-op outputs (hit/miss, bytes of every ReadAt, stored file of every key, "
              "validity of the pooled buffer handed to each Add)",
-             "hook cache.VerifPersistHook (build tag verif) only blocks the persist closure at four points; it does not change what the closure does"],
+             "hooks cache.VerifPersistHook / cache.VerifGetHook (build tag verif) only block the persist closure at four points and Get "
+             "between its three lookups; they do not change what the code does",
+             "fault injection by RLIMIT_FSIZE (short write) and by a regular file in place of a key's directory (MkdirAll failure)"],
 )
